@@ -58,9 +58,10 @@ ASSUMPTIONS = ['inputs are NUL-free, surrogate-free text (a cdef containing NUL 
                'a single Python version (3.12) is available: "same Python version" is not varied']
 BUDGET = {'quick': 640, 'thorough': 64000}
 MIN_PER_SHARD = 20
+MAX_SHARDS = 8
 TIME = {'quick': 15, 'thorough': 800}      # wall cap per shard (machine load varies a lot)
 # cross-process leg: (number of families, hash seeds)
-XP = {'quick': (70, ['1', '2', '31337', '4294967295']),
+XP = {'quick': (40, ['1', '2', '31337', '4294967295']),
       'thorough': (2500, ['1', '2', '3', '5', '8', '13', '21', '34', '55', '89', '144', '31337',
                           '65536', '2147483647', '4294967294', '4294967295'])}
 
@@ -717,7 +718,7 @@ def _small_values(tier):
         out += [['l', [a, b]] for a in lvl1 for b in lvl1]
     else:
         few = atoms + [['l', []], ['d', []]]
-        out += [['l', [a, b]] for a in lvl1 for b in few] + [['l', [a, b]] for a in few for b in lvl1]
+        out += [['l', [a, b]] for a in lvl1 for b in few[::2]] + [['l', [a, b]] for a in few[1::2] for b in lvl1]
     out += [['l', [a, b, c]] for a in atoms for b in atoms for c in atoms]
     out += [['d', [[k1, a], [k2, b]]] for i, k1 in enumerate(keys) for k2 in keys[i + 1:]
             for a in atoms[:8] for b in atoms[:8]]
@@ -760,7 +761,10 @@ def _enumerate_small(ctx):
     texts = ['', ';', ' ', ';;', '; ', ' ;', '  ']
     kws = [['d', []], ['d', [['', ['s', '']]]], ['d', [[';', ['s', ' ']]]], ['d', [['', ['l', []]]]]]
     lists = [[]] + [[a] for a in texts] + [[a, b] for a in texts for b in texts]
-    lists += [[a, b, c] for a in texts[:4] for b in texts[:4] for c in texts[:4]]
+    if ctx.tier == 'thorough':
+        lists += [[a, b, c] for a in texts[:4] for b in texts[:4] for c in texts[:4]]
+    else:
+        lists += [[a, b, c] for a in texts[:3] for b in texts[:2] for c in texts[:3]]
     for cds in lists:
         items = [{'c': [t]} for t in cds]
         ffi = build_ffi(items)
